@@ -46,13 +46,83 @@ def run(tier):
     if tier == 'quick' and len(shapes) < 20:
         R.broke('only %d distinct dispatch shapes covered (floor 20)' % len(shapes))
     wrappers(db, R)
+    stateful_controls(R)
     R.assumptions = ['rule boundary = opaque oracle (true/false/exception); hooks are opaque events that may throw',
                      'exceptions thrown by a closing hook itself (success/failure/start/unwind) are outside the statement']
     return R.finish(
         'Exhaustive path enumeration of every instantiation of the central dispatch tao::pegtl::match<> (action shapes x apply mode x rewind mode x control with/without unwind x enable), '
         'exceptional exits included, with RAII unwinding interpreted from the source; assertions H1-H7 on the complete (event sequence, exit, result, cursor) table; '
-        'plus 1:1 forwarding of every shipped control wrapper.',
+        'plus 1:1 forwarding of every shipped control wrapper, and the stack / counter discipline of the shipped stateful controls (coverage, trace).',
         'one obligation per instantiation of match<> and per wrapper hook; distinct = distinct function instantiations')
+
+
+COUNTERS = ('start', 'success', 'failure', 'unwind', 'raise', 'raise_nested')
+
+
+def hook_events(fn):
+    """program-order events of a stateful control hook: pushes / pops of its rule stack and counter increments
+    ( 'inc', counter, 'own' | 'branch', guarded by a non-empty stack?, keyed by the top of the stack? )"""
+    from ..exc import walk, leaves
+    ev = []
+    def is_stack(n): return n.get('k') == 'member' and n.get('n') in ('stack', 'm_stack')
+    def visit(n, guarded):
+        if isinstance(n, list):
+            for x in n: visit(x, guarded)
+            return
+        if not isinstance(n, dict): return
+        k = n.get('k')
+        if k == 'If':
+            c = n.get('cond')
+            g = bool(walk(c, lambda x: x.get('k') == 'call' and x.get('cn') == 'empty' and is_stack(x.get('obj') or {}), [])) and (c or {}).get('k') == 'un' and c.get('op') == '!'
+            visit(c, guarded); visit(n.get('then'), guarded or g); visit(n.get('else'), guarded)
+            return
+        if k == 'call' and n.get('cn') in ('push_back', 'emplace_back') and is_stack(n.get('obj') or {}): ev.append(('push',))
+        if k == 'call' and n.get('cn') == 'pop_back' and is_stack(n.get('obj') or {}): ev.append(('pop',))
+        if k == 'un' and n.get('op') in ('++',) and (n.get('e') or {}).get('k') == 'member' and n['e'].get('n') in COUNTERS:
+            lv = leaves(n['e'])
+            ev.append(('inc', n['e']['n'], 'branch' if ('member', 'branches') in lv else 'own', guarded, ('call', 'back') in lv))
+            return
+        for key, v in n.items():
+            if key in ('loc', 't'): continue
+            visit(v, guarded)
+    visit(fn.get('body'), False)
+    return ev
+
+
+def stateful_controls(R):
+    """K-state: the shipped stateful controls keep a rule stack in step with the protocol and count every event once.
+    coverage: start counts the rule and, under the rule then on top, the branch, and pushes afterwards; success / failure / unwind pop first
+    and count the rule and the branch under the new top (the same parent as at start): with H1-H7, start = success + failure + unwind
+    for every rule and every branch.  trace: start pushes once, success / failure / unwind pop once, nothing else moves the stack."""
+    cdb = core.DB(core.extract(list(units.COV)))
+    n = collections.Counter()
+    for fn in cdb.order:
+        q = fn['q']
+        if q.startswith('tao::pegtl::internal::coverage_state::') and fn['n'] in COUNTERS:
+            ev = hook_events(fn); name = fn['n']; probs = []
+            incs = [e for e in ev if e[0] == 'inc']
+            want_inc = [('inc', name, 'own', False, False), ('inc', name, 'branch', True, True)]
+            if incs != want_inc: probs.append('counts %s, expected the own %s counter once and, guarded by a non-empty stack, the %s counter of this branch under the rule on top of the stack' % ([e[1:3] for e in incs], name, name))
+            moves = [e[0] for e in ev if e[0] in ('push', 'pop')]
+            if name == 'start':
+                if moves != ['push']: probs.append('start must push the rule exactly once (%s)' % moves)
+                elif ev.index(('push',)) < max(ev.index(e) for e in incs) if incs else False: probs.append('start pushes the rule before counting the branch: the branch is filed under the rule itself')
+            elif name in ('success', 'failure', 'unwind'):
+                if moves != ['pop']: probs.append('%s must pop the rule exactly once (%s)' % (name, moves))
+                elif incs and ev.index(('pop',)) > min(ev.index(e) for e in incs): probs.append('%s counts before popping: the branch is filed under the rule itself, not under its parent' % name)
+            elif moves: probs.append('%s must not move the rule stack' % name)
+            n['coverage'] += 1
+            R.ob(ok=not probs, key=('cov', fn['disp']))
+            for pmsg in probs: R.violation('K-state', 'contrib/coverage.hpp::internal::coverage_state::' + name, pmsg, {'function': fn['disp'][:160]}, key=('K', 'cov', name, pmsg))
+        elif q.startswith('tao::pegtl::tracer<') and fn['n'] in COUNTERS + ('apply', 'apply0'):
+            ev = hook_events(fn); name = fn['n']
+            moves = [e[0] for e in ev if e[0] in ('push', 'pop')]
+            want = {'start': ['push'], 'success': ['pop'], 'failure': ['pop'], 'unwind': ['pop']}.get(name, [])
+            n['trace'] += 1
+            R.ob(ok=moves == want, key=('trace', fn['disp']))
+            if moves != want: R.violation('K-state', 'contrib/trace.hpp::tracer::' + name, 'the indentation stack is moved %s, expected %s' % (moves, want), {'function': fn['disp'][:160]}, key=('K', 'trace', name))
+    R.cov['stateful_control_hooks'] = dict(n)
+    if n['coverage'] < 30 or n['trace'] < 30: R.broke('stateful control hooks analysed: %s (floor 30 each)' % dict(n))
 
 
 def wrappers(db, R):
